@@ -10,7 +10,9 @@
 (*  dec (C13, C14) {ty, cls, in, ok, consumed, dec, reenc, reencerr, panic, alloc}    *)
 (*       Required: no Go panic; accepted <=> Dec(Schema[ty], in) accepts; if         *)
 (*       accepted, consumed = used (when the entry point reports it), value = the    *)
-(*       specified value, re-encoding = the consumed bytes.  With CheckAlloc:        *)
+(*       specified value, re-encoding = the consumed bytes (CheckVerdict; C13).      *)
+(*       C14 demands only what its statement demands: no panic, no process death     *)
+(*       and, with CheckAlloc:                                                       *)
 (*       alloc <= AllocK + AllocC * |in|   (alloc is an 8-byte little-endian tuple). *)
 (*       A record with "crash" (the driver process died inside this case) is bad.    *)
 (*                                                                                  *)
@@ -19,7 +21,7 @@
 (*   metacode_empty_input   MetaCode.Decode accepts the EMPTY input as the empty     *)
 (*                          MetaCode (whose encoding is the single octet 00)         *)
 EXTENDS Schema, Json, SequencesExt
-CONSTANTS TraceFile, ResultFile, KnownDeviations, CheckAlloc, AllocK, AllocC
+CONSTANTS TraceFile, ResultFile, KnownDeviations, CheckVerdict, CheckAlloc, AllocK, AllocC
 VARIABLES l, devs, bad
 
 HasField(e, f) == f \in DOMAIN e
@@ -56,6 +58,7 @@ JudgeDec2(e, ty, want) ==
 JudgeDec(e) ==
   IF HasField(e, "crash") THEN {"process_died"}
   ELSE IF e.panic # "" THEN {"panic"}
+  ELSE IF ~CheckVerdict THEN (IF CheckAlloc /\ ~AllocOk(e) THEN {"allocation_unbounded"} ELSE {})
   ELSE UNION {UNION {JudgeDec2(e, Schema[e.ty], want) : want \in {WantOf(e, d)}} : d \in {Dec(Schema[e.ty], e.in)}}
 
 Judge(e) == IF e.op = "rt" THEN JudgeRT(e) ELSE IF e.op = "dec" THEN JudgeDec(e) ELSE {}
